@@ -32,6 +32,7 @@ NESTS = {
 }
 
 P_PUBLIC = r'^auto cnl::_impl::operator(?:[-+*/%&|^]|<<|>>|==|!=|<=|>=|<|>)<cnl::_impl::wrapper<'
+P_PUBLIC_ANY = r'^auto cnl::_impl::operator(?:==|!=|<=|>=|<|>)<'
 P_WRAPOP = r'^cnl::custom_operator<cnl::_impl::\w+_op, cnl::op_value<cnl::_impl::wrapper<.*>::operator\(\)\(cnl::_impl::wrapper<'
 P_PLAIN = r'cnl::_impl::\w+_op::operator\(\)<[a-z_0-9 ]+, [a-z_0-9 ]+>\('
 P_TAGOP = r'^cnl::custom_operator<cnl::_impl::\w+_op, cnl::op_value<(?:unsigned |signed )?\w+, cnl::.*>::operator\(\)\((?:unsigned |signed )?\w+ const&'
@@ -117,6 +118,29 @@ def plan(tier):
                 if not skip_leaf:
                     jobs.append(Job('%s.L1.%s' % (PROP, tag), kname, P_PLAIN, c1, layer=1, optional=True, **light, **absm))
                 n_inst += 1
+    # wrapper OP built-in and built-in OP wrapper comparisons: the answer of the built-in comparison of rep and integer,
+    # including integers that the wrapper's rep cannot represent
+    for nest in (['s0', 'on', 'rn'] if thorough else ['s0', 'on']):
+        for (l, r) in [('u8', 'i32'), ('i8', 'u8'), ('i32', 'u32')] + ([('i16', 'i64'), ('u32', 'i8')] if thorough else []):
+            L, R = T(l), T(r)
+            A = NESTS[nest](cxx(l))
+            for op in (CMP if thorough else ('equal', 'less_than', 'greater_than')):
+                for order in ('wb', 'bw'):
+                    tag = '%s_%s_%s_%s_%s' % (order, nest, op, l, r)
+                    sname = 'vp_' + tag
+                    if order == 'wb':
+                        src.append(shim('bool', sname, [(l, 'a'), (r, 'b')], 'return cnl::_impl::from_rep<%s>(a) %s b;' % (A, OPS[op])))
+                        c0 = sem_contract(op, L, R, 0)
+                        orc = oracle(op, L, R)
+                        types = [l, r]
+                    else:
+                        src.append(shim('bool', sname, [(r, 'b'), (l, 'a')], 'return b %s cnl::_impl::from_rep<%s>(a);' % (OPS[op], A)))
+                        c0 = sem_contract(op, R, L, 0)
+                        orc = oracle(op, R, L)
+                        types = [r, l]
+                    jobs.append(Job('%s.L3.%s' % (PROP, tag), kname, P_PUBLIC_ANY, c0, via=sname, shim=sname, shim_types=types,
+                                    oracle=orc, prop=PROP, timeout=120, layer=3))
+                    n_inst += 1
     k = Kernel(kname, ''.join(src), [], 'native-tag wrappers')
     meta = {'instantiations': n_inst,
             'explanation': 'wrapper operators proved equal to the built-in expression on the reps, layer by layer; the promoted result type is a compile-time fact',
